@@ -1,6 +1,7 @@
 (* Props/C04.v — assertions are honoured only inside their validity windows.
    Times are whole seconds (the code truncates fractions before comparing). *)
 From PV Require Import Lib.Base Model.Status Model.Response Model.C04Kinds Proofs.Response_lemmas Proofs.C04_lemmas Proofs.C04_kinds.
+From PV Require Model.TimeUtil Proofs.TimeUtil_lemmas.
 Open Scope Z_scope.
 
 (* Acceptance implies, for every clock value, every allowance and every subset of
@@ -190,3 +191,153 @@ Example C04_witness_kinds :
   accepted (KStatus SManageNameId) BPost (cfgT 1000000 0) (logoutT 1086399) = true.
 Proof. vm_compute. repeat split; reflexivity. Qed.
 Print Assumptions C04_witness_kinds.
+
+(* ==== the TEXT of a time stamp (Model/TimeUtil.v, Proofs/TimeUtil_lemmas.v) ====================================
+   Everything above takes instants (Z).  The library starts from attribute texts: time_util.str_to_time
+   (time.strptime, the fall-back pattern, calendar.timegm, time.gmtime) and compares time.struct_time TUPLES in
+   before / after / later_than / issue_instant_ok.  The theorems below bring that step inside the model: the calendar
+   functions are inverse to each other, tuple order of normalised values IS the order of instants, what strptime reads,
+   and the text-level tests equal the integer tests used above. *)
+Module TU := PV.Model.TimeUtil.
+Module TL := PV.Proofs.TimeUtil_lemmas.
+
+(* gmtime and timegm are inverse: for EVERY integer t (Python restricts t to years 1..9999:
+   -62135596800 <= t <= 253402300799; calendar.timegm raises outside, the model is total), and for every normalised
+   civil time (valid month / day of that month / hour / minute / second, wday and yday as the calendar gives them, isdst 0) *)
+Theorem C04_gmtime_timegm :
+  (forall t, TU.timegm (TU.gmtime t) = t) /\
+  (forall t, TU.valid_tm (TU.gmtime t)) /\
+  (forall c, TU.valid_tm c -> TU.gmtime (TU.timegm c) = c).
+Proof. split; [exact TL.timegm_gmtime|]. split; [exact TL.gmtime_valid|exact TL.gmtime_timegm]. Qed.
+Print Assumptions C04_gmtime_timegm.
+
+(* the day number is strictly monotone in (year, month, day) read lexicographically — all years, proved *)
+Theorem C04_day_number_strictly_monotone :
+  forall y m d y' m' d', TU.valid_date y m d -> TU.valid_date y' m' d' ->
+    (y < y' \/ (y = y' /\ (m < m' \/ (m = m' /\ d < d')))) -> TU.days_from_civil y m d < TU.days_from_civil y' m' d'.
+Proof. intros y m d y' m' d' V V' H. unfold TU.days_from_civil. pose proof (TL.ordinal_lt _ _ _ _ _ _ V V' H). lia. Qed.
+Print Assumptions C04_day_number_strictly_monotone.
+
+(* Python compares struct_time values as 9-tuples (year, month, day, hour, minute, second, wday, yday, isdst), first
+   difference decides.  For ALL normalised a b that comparison is the comparison of the instants: <=, >=, < alike *)
+Theorem C04_tuple_order_is_instant_order :
+  forall a b, TU.valid_tm a -> TU.valid_tm b ->
+    TU.tuple_cmp a b = (TU.timegm a ?= TU.timegm b) /\
+    (TU.tuple_leb a b = true <-> TU.timegm a <= TU.timegm b) /\
+    (TU.tuple_geb a b = true <-> TU.timegm a >= TU.timegm b) /\
+    (TU.tuple_ltb a b = true <-> TU.timegm a < TU.timegm b).
+Proof.
+  intros a b Va Vb. split; [exact (TL.tuple_cmp_is_instant_cmp a b Va Vb)|].
+  rewrite (TL.tuple_leb_instant a b Va Vb), (TL.tuple_geb_instant a b Va Vb), (TL.tuple_ltb_instant a b Va Vb).
+  rewrite Z.leb_le, Z.geb_le, Z.ltb_lt. repeat split; lia.
+Qed.
+Print Assumptions C04_tuple_order_is_instant_order.
+
+(* instant(t) read back by str_to_time is gmtime t — years 1000..9999 (this platform's strftime does not pad %Y:
+   year 999 is written with three digits, which strptime's \d\d\d\d does not read; the harness shows the real
+   functions do the same) *)
+Theorem C04_instant_round_trip :
+  forall t, -30610224000 <= t <= 253402300799 ->
+    TU.str_to_time (TU.instant_of t) = Ok (Some (TU.gmtime t)) /\
+    (forall now, t <> 0 -> TU.str_to_time (TU.instant now t) = Ok (Some (TU.gmtime t))).
+Proof.
+  intros t R. pose proof (TL.instant_round_trip t (TL.gmtime_year_range t R)) as H. split; [exact H|].
+  intros now NZ. unfold TU.instant. destruct (Z.eqb_spec t 0); [congruence|exact H].
+Qed.
+Print Assumptions C04_instant_round_trip.
+
+(* THE BRIDGE.  On every text str_to_time reads, before / after / later_than (tuple comparisons against the clock
+   reading) are the integer tests of the models above on timegm of the parsed value: before = not-past (now <= point),
+   later_than = Response.later_than, and the IssueInstant test on tuples (bounds from datetime.timetuple(), whose
+   tm_isdst = -1 breaks the tie) is Response.issue_instant_ok: closed at the old end, open at the future end.
+   validate_on_or_after / validate_before call calendar.timegm on the parsed value themselves: the instant they use
+   is the same timegm c. *)
+Theorem C04_text_tests_are_instant_tests :
+  (forall now s c, TU.str_to_time s = Ok (Some c) ->
+     TU.before now (TU.AText s) = Ok (now <=? TU.timegm c) /\
+     TU.after now (TU.AText s) = Ok (negb (now <=? TU.timegm c))) /\
+  (forall a b ca cb, TU.str_to_time a = Ok (Some ca) -> TU.str_to_time b = Ok (Some cb) ->
+     TU.later_than (TU.AText a) (TU.AText b) = Ok (later_than (Some (TU.timegm ca)) (Some (TU.timegm cb)))) /\
+  (forall cfg s c, TU.str_to_time s = Ok (Some c) ->
+     TU.issue_window (now cfg) (slack cfg) c = issue_instant_ok cfg (TU.timegm c)) /\
+  (forall now z, z <> 0 -> TU.before now (TU.AInt z) = Ok (now <=? z) /\ TU.after now (TU.AInt z) = Ok (negb (now <=? z))) /\
+  (forall now, TU.before now TU.ANone = Ok true /\ TU.before now (TU.AText []) = Ok true /\ TU.before now (TU.AInt 0) = Ok true /\
+               TU.after now TU.ANone = Ok true /\ TU.after now (TU.AText []) = Ok true /\ TU.after now (TU.AInt 0) = Ok true).
+Proof.
+  split; [intros nowv s c H; split; [exact (TL.before_text nowv s c H)|exact (TL.after_text nowv s c H)]|].
+  split; [intros a b ca cb Ha Hb; exact (TL.later_than_text a b ca cb Ha Hb)|].
+  split; [intros cfg s c H; exact (TL.issue_window_text (now cfg) (slack cfg) s c H)|].
+  split; [exact TL.before_int|]. intros nowv. repeat split; reflexivity.
+Qed.
+Print Assumptions C04_text_tests_are_instant_tests.
+
+(* what str_to_time returns is always normalised, is the tuple of exactly one instant, and that instant is timegm of
+   the fields strptime read from the text itself or from group 1 of the fall-back pattern + Z *)
+Theorem C04_accepted_text_denotes_one_instant :
+  forall s c, TU.str_to_time s = Ok (Some c) ->
+    TU.valid_tm c /\ c = TU.gmtime (TU.timegm c) /\
+    ((exists p, TU.strptime_iso s = Some p /\ TU.timegm c = TU.timegm p) \/
+     (TU.strptime_iso s = None /\ exists g p, TU.fragment_group s = Some g /\ TU.strptime_iso (g ++ [TU.c_Z]) = Some p /\
+        TU.timegm c = TU.timegm p)).
+Proof. exact TL.str_to_time_denotes. Qed.
+Print Assumptions C04_accepted_text_denotes_one_instant.
+
+(* WHAT strptime ACCEPTS, exactly: 4 digits - month - day T hour : minute : second Z to the end of the text, T / Z in
+   either case, every field one or two characters read by field_m .. field_S (the alternatives of CPython's expression:
+   \d is any Unicode decimal digit, the bracket classes are ASCII), year >= 1 and the day inside its month *)
+Theorem C04_strptime_accepts_exactly :
+  forall s c, TU.strptime_iso s = Some c <->
+    exists y1 y2 y3 y4 fm fd cT fH fM fS cZ y mo d h mi sec,
+      s = TL.iso_text y1 y2 y3 y4 fm fd cT fH fM fS cZ /\ TU.is_T cT = true /\ TU.is_Z cZ = true /\
+      TU.field_Y y1 y2 y3 y4 = Some y /\ TU.field_m fm = Some mo /\ TU.field_d fd = Some d /\
+      TU.field_H fH = Some h /\ TU.field_M fM = Some mi /\ TU.field_S fS = Some sec /\
+      1 <= y /\ d <= TU.days_in_month y mo /\ c = TU.mk_parsed y mo d h mi sec.
+Proof. exact TL.strptime_iso_characterised. Qed.
+Print Assumptions C04_strptime_accepts_exactly.
+
+(* ... and what it reads is a date of the calendar with hour 0..23, minute 0..59, second 0..61 (60 and 61 are carried
+   into the next minute by timegm), year 1..9999 *)
+Theorem C04_strptime_ranges :
+  forall s c, TU.strptime_iso s = Some c ->
+    1 <= TU.tm_year c <= 9999 /\ TU.valid_date (TU.tm_year c) (TU.tm_mon c) (TU.tm_mday c) /\
+    0 <= TU.tm_hour c <= 23 /\ 0 <= TU.tm_min c <= 59 /\ 0 <= TU.tm_sec c <= 61 /\ TU.tm_isdst c = -1.
+Proof. exact TL.strptime_iso_ranges. Qed.
+Print Assumptions C04_strptime_ranges.
+
+(* two DIFFERENT accepted spellings of one instant (padded / unpadded, Z / z / none, with a fraction, other digits ...)
+   are the same value and get the same verdict from every test, against any clock reading and any other argument *)
+Theorem C04_spellings_of_one_instant_agree :
+  forall now s1 s2 c1 c2 other, TU.str_to_time s1 = Ok (Some c1) -> TU.str_to_time s2 = Ok (Some c2) -> TU.timegm c1 = TU.timegm c2 ->
+    c1 = c2 /\ TU.before now (TU.AText s1) = TU.before now (TU.AText s2) /\ TU.after now (TU.AText s1) = TU.after now (TU.AText s2) /\
+    TU.later_than (TU.AText s1) other = TU.later_than (TU.AText s2) other /\
+    TU.later_than other (TU.AText s1) = TU.later_than other (TU.AText s2).
+Proof. exact TL.same_instant_same_verdict. Qed.
+Print Assumptions C04_spellings_of_one_instant_agree.
+
+(* non-vacuity: leap day, month ends, one-digit fields, blank + digit day, other digits, lower case, fractions, the epoch,
+   the 2038 boundary, year 1 and 9999, carried seconds; and what is refused *)
+Definition tt_of (s : string) : val := TU.run_str_to_time (s2l s).
+Definition inst_of (s : string) : option Z :=
+  match TU.str_to_time (s2l s) with Ok (Some c) => Some (TU.timegm c) | _ => None end.
+Example C04_time_text_witness :
+  inst_of "1970-01-01T00:00:00Z" = Some 0 /\
+  inst_of "2038-01-19T03:14:07Z" = Some 2147483647 /\ inst_of "2038-01-19T03:14:08Z" = Some 2147483648 /\
+  inst_of "2024-02-29T23:59:59Z" = Some 1709251199 /\ inst_of "2024-03-01T00:00:00Z" = Some 1709251200 /\
+  inst_of "2023-02-29T00:00:00Z" = None /\ inst_of "1900-02-29T00:00:00Z" = None /\ inst_of "2000-02-29T00:00:00Z" = Some 951782400 /\
+  inst_of "2026-9-1T1:2:3Z" = Some 1788224523 /\ inst_of "2026-09-01t01:02:03z" = Some 1788224523 /\
+  inst_of "2026-09- 1T01:02:03Z" = Some 1788224523 /\ inst_of "2026-09-01T01:02:03.999" = Some 1788224523 /\
+  inst_of "2026-09-01T01:02:03" = Some 1788224523 /\ inst_of "2026-9-1T1:2:3" = None /\
+  inst_of "9999-12-31T23:59:59Z" = Some 253402300799 /\ inst_of "0001-01-01T00:00:00Z" = Some (-62135596800) /\
+  inst_of "0000-01-01T00:00:00Z" = None /\ inst_of "2026-12-31T23:59:60Z" = Some 1798761600 /\ inst_of "2027-01-01T00:00:00Z" = Some 1798761600 /\
+  inst_of "2026-09-01T24:00:00Z" = None /\ inst_of "2026-09-01T01:02:03+00:00" = None /\ inst_of " 2026-09-01T01:02:03Z" = None /\
+  TU.str_to_time (s2l "2026-13-01T00:00:00") = Err TU.ValueError /\ TU.str_to_time (s2l "2026-09-01T01:02:03+00:00") = Err TU.AttributeError /\
+  TU.str_to_time [] = Ok None /\
+  TU.str_to_time [50; 48; 50; 54; 45; 48; 57; 45; 48; 49; 84; 49; 1636; 58; 48; 50; 58; 48; 51; 90]%N = Ok (Some (TU.gmtime 1788271323)) /\
+  TU.instant_of 1788224523 = s2l "2026-09-01T01:02:03Z" /\ TU.instant_of (-30610224001) = s2l "999-12-31T23:59:59Z" /\
+  TU.tm_list (TU.gmtime 0) = [1970; 1; 1; 0; 0; 0; 3; 1; 0] /\
+  TU.before 1788224523 (TU.AText (s2l "2026-9-1T1:2:3Z")) = Ok true /\ TU.before 1788224524 (TU.AText (s2l "2026-9-1T1:2:3Z")) = Ok false /\
+  TU.later_than (TU.AText (s2l "2027-01-01T00:00:00Z")) (TU.AText (s2l "2026-12-31T23:59:59.5")) = Ok true /\
+  TU.later_than (TU.AText (s2l "2026-12-31T23:59:59Z")) (TU.AText (s2l "2027-1-1T0:0:0z")) = Ok false /\
+  TU.later_than (TU.AText []) (TU.AText (s2l "2027-01-01T00:00:00Z")) = Err TU.TypeError.
+Proof. vm_compute. repeat split; reflexivity. Qed.
+Print Assumptions C04_time_text_witness.
